@@ -383,6 +383,58 @@ func (ww *WW) StepReceive() {
 	}
 }
 
+// StepOutsideRedeem: a token a wallet returned to its caller is redeemed by somebody who is not one
+// of the simulated wallets (other Cashu software): a plain swap built by hand, which may carry a
+// witness string on the (plain) inputs - the mint stores it and reports it with the SPENT state.
+// What the outsider obtains is again a token in nobody's wallet.
+func (ww *WW) StepOutsideRedeem(witness string) bool {
+	var cands []*OutToken
+	for _, t := range ww.Tokens {
+		if !t.Claimed && t.Kind == "plain" && len(t.Proofs) > 0 {
+			cands = append(cands, t)
+		}
+	}
+	if len(cands) == 0 {
+		return false
+	}
+	tok := cands[ww.T.Choose("outside.tok", len(cands))]
+	fee := ww.feeOfProofs(tok.Mint, tok.Proofs)
+	total := tok.Proofs.Amount()
+	if total <= fee {
+		return false
+	}
+	ww.op(fmt.Sprintf("outsider.redeem witness=%v", witness != ""))
+	a := NewActor(ww.W, ww.name("outsider"))
+	var ins []*HProof
+	for _, p := range tok.Proofs {
+		ins = append(ins, &HProof{Amount: p.Amount, ID: p.Id, Secret: p.Secret, C: p.C, Witness: witness, Mint: tok.Mint})
+	}
+	ks := ww.W.ActiveKeyset(tok.Mint)
+	outs := ww.W.NewOutputs(Split(total-fee), ks.ID)
+	var ps []*HProof
+	var r *Resp
+	ww.rc.Quietly(func() { ps, r = a.Swap(tok.Mint, ins, outs) })
+	if r == nil || !r.OK() {
+		ww.rc.S.Probe("outside_redeem_refused")
+		return false
+	}
+	tok.Claimed = true
+	ww.rc.S.Probe("outside_redeem_ok")
+	if witness != "" {
+		ww.rc.S.Probe("outside_redeem_with_witness")
+	}
+	var cps cashu.Proofs
+	for _, p := range ps {
+		cps = append(cps, cashu.Proof{Amount: p.Amount, Id: p.ID, Secret: p.Secret, C: p.C})
+	}
+	str, err := MakeToken(cps, ww.mintURL(tok.Mint), false, false)
+	if err != nil {
+		harnessf("outsider token: %v", err)
+	}
+	ww.Tokens = append(ww.Tokens, &OutToken{Str: str, Proofs: cps, From: "outsider", Mint: tok.Mint, Amount: cps.Amount(), Kind: "plain"})
+	return true
+}
+
 // StepSendLocked: P2PK or HTLC locked ecash for another wallet.
 func (ww *WW) StepSendLocked() {
 	if len(ww.Wallets) < 2 {
